@@ -1,5 +1,8 @@
 """C11 - polynomial ring and calculus laws."""
 
+import json
+import zlib
+
 PID = 'C11'
 
 CLAIM = dict(
@@ -20,6 +23,8 @@ CLAIM = dict(
 
 def _stamp(tys):
     def f(c, n):
+        # TLC prints cases in a worker-dependent order: derive every choice from the case itself, not from its position
+        n = zlib.crc32(json.dumps(c, sort_keys=True).encode())
         d = dict(c)
         d['suite'] = 'poly'
         d['ty'] = 'cx' if 'pi' in c else tys[n % len(tys)]
